@@ -109,4 +109,11 @@ PROPS = {
         "streams": [{"name": "listing"}, {"name": "osmodel", "quick": ["-n", "300"], "thorough": ["-n", "5000"]}, {"name": "layers", "quick": ["-n", "12000"]}],
         "assumptions": LAYER_ASSUME + ["the directory stream of the underlying os.File returns every entry once, in a fixed order (taken from a plain Readdirnames(-1) of the same directory)"],
     },
+    "C10": {
+        "theorems": ["serialisable", "critical_sections_are_atomic", "lock_discipline", "lock_discipline_nonvacuous"],
+        "streams": [{"name": "conc", "quick": ["-n", "25"], "thorough": ["-n", "300"]}],
+        "assumptions": ["sync.Mutex provides mutual exclusion",
+                        "Generated/LockFacts.lean is regenerated from /repo's Go AST on every run (go/ast extractor in harness/astfacts.go)",
+                        "not exhibited by the model: Go-memory-model data races as such, writes through a handle after the creating call returned, read-only operations observing intermediate states of a running RemoveAll/Rollback"],
+    },
 }
